@@ -40,6 +40,8 @@ Classes ==
       C("stale_generation", "err"),  \* next_cursor obtained before the last commit
       C("other_sort", "err"),        \* next_cursor of the same query under another sort order
       C("deep", "err"),              \* well-formed, `returned` beyond the 50k bound
+      C("valid_tampered", "any"),    \* a genuine next_cursor with one field changed (type tag of a sort value,
+                                     \* value type, number of values, positions); version, generation, plan hash valid
       C("wrong_length", "any"),      \* hex, but 40 characters
       C("nonhex_ascii", "any"),      \* 42 ASCII characters that are not hex digits
       C("hex_random", "any"),        \* 42 random hex digits
